@@ -120,6 +120,55 @@ class ProgramOptionsSave(Contract):
                 r_lits = [y.get('value', '').strip('"') for y in _walk(ops[1]) if y.get('kind') == 'StringLiteral']
                 if len(l_lits) == 1 and len(r_lits) == 1:
                     copies.add((l_lits[0], r_lits[0]))
+        # the same copy done through a small helper:  helper(vm, "alias", "canonical")  whose body assigns
+        # vm.at(<canonical parameter>).value() = vm[<alias parameter>].value()
+        for n in _walk(parses[0]):
+            if n.get('kind') != 'CallExpr':
+                continue
+            callee = n['inner'][0]
+            while callee.get('kind') in ('ImplicitCastExpr', 'ParenExpr'):
+                callee = callee['inner'][0]
+            fd = tu.byid.get((callee.get('referencedDecl') or {}).get('id'))
+            if fd is None:
+                fds = [f_ for f_ in tu.docs if isinstance(f_, dict) and f_.get('id') == (callee.get('referencedDecl') or {}).get('id')]
+                fd = fds[0] if fds else None
+            if fd is None or not any(c.get('kind') == 'CompoundStmt' for c in fd.get('inner', [])):
+                # definition may be a later redeclaration of the same function
+                nm_ = (callee.get('referencedDecl') or {}).get('name')
+                cands = [f_ for q_, fl_ in tu.funcs.items() for f_ in fl_ if q_.split('::')[-1] == nm_]
+                fd = cands[0] if len(cands) == 1 else None
+            if fd is None:
+                # a helper outside namespace vfps (e.g. in an anonymous namespace of the same file): dump it by name
+                nm_ = (callee.get('referencedDecl') or {}).get('name')
+                if nm_ and nm_ not in ('store', 'notify', 'parse_config_file', 'parse_command_line', 'printText', 'exists', 'is_regular_file'):
+                    try:
+                        tu2 = tc.get(self.tu, nm_)
+                        cands = [f_ for q_, fl_ in tu2.funcs.items() for f_ in fl_ if q_.split('::')[-1] == nm_]
+                        fd = cands[0] if len(cands) == 1 else None
+                    except ExtractionError:
+                        fd = None
+            if fd is None:
+                continue
+            ps_ = params(fd)
+            pidx = {p_['id']: i_ for i_, p_ in enumerate(ps_)}
+            for a_ in _walk(fd):
+                if a_.get('kind') in ('CXXOperatorCallExpr', 'BinaryOperator') and len(a_.get('inner', [])) >= 2:
+                    isassign = (a_.get('kind') == 'BinaryOperator' and a_.get('opcode') == '=') or \
+                               any((y.get('referencedDecl') or {}).get('name') == 'operator=' for y in _walk(a_['inner'][0]))
+                    if not isassign:
+                        continue
+                    ops = a_['inner'][-2:]
+                    lp = [pidx[(y.get('referencedDecl') or {}).get('id')] for y in _walk(ops[0]) if y.get('kind') == 'DeclRefExpr' and (y.get('referencedDecl') or {}).get('id') in pidx]
+                    rp = [pidx[(y.get('referencedDecl') or {}).get('id')] for y in _walk(ops[1]) if y.get('kind') == 'DeclRefExpr' and (y.get('referencedDecl') or {}).get('id') in pidx]
+                    # parameters that are strings (names), ignoring the map parameter shared by both sides
+                    lp = [i_ for i_ in lp if 'string' in ps_[i_]['type'].get('qualType', '') or 'char' in ps_[i_]['type'].get('qualType', '')]
+                    rp = [i_ for i_ in rp if 'string' in ps_[i_]['type'].get('qualType', '') or 'char' in ps_[i_]['type'].get('qualType', '')]
+                    if len(set(lp)) == 1 and len(set(rp)) == 1 and lp[0] != rp[0]:
+                        args_ = n['inner'][1:]
+                        if max(lp[0], rp[0]) < len(args_):
+                            cl, al = strlit(args_[lp[0]]), strlit(args_[rp[0]])
+                            if cl and al:
+                                copies.add((cl, al))
         nalias = 0
         for mem, names in sorted(bound.items()):
             canon = [nm for nm in names if nm not in skipped]
